@@ -135,6 +135,15 @@ def local_body(I, c):
 def do_push(I, var, path, val, env):
     if I.loops and var not in I.loops[-1].inner_vars:
         lc = I.loops[-1]
+        conds = I.cond_stack[getattr(lc, "cond_base", 0):]
+        if conds:
+            # a push that happens only when a condition of this iteration holds builds the FILTERED sequence
+            from .interp import cond_and
+            c = conds[0]
+            for c2 in conds[1:]:
+                c = cond_and(c, c2)
+            lc.effects.append((var, tuple(path), "push-if", (c, val), list(I.loop_guards_for(lc)), ()))
+            return UNIT
         lc.effects.append((var, tuple(path), "push", val, list(I.loop_guards_for(lc)), ()))
         # materialise at loop end: handled in apply hook below
         return UNIT
@@ -161,9 +170,31 @@ def _apply_push(I, var, path, val, lc, gs, env):
 _orig_apply = Interp.apply_summarised
 
 
+def _apply_push_if(I, var, path, cv, lc, gs, env):
+    cond, val = cv
+    cur = I.read_place(var, path, env)
+    if not (isinstance(cur, ListV) and not cur.items):
+        raise Undecided("conditional push in a loop onto a non-empty sequence")
+    if gs or len([ef for ef in lc.effects if ef[0] == var and tuple(ef[1]) == tuple(path)]) != 1:
+        raise Undecided("conditional push under index guards / next to another push")
+    k, cls = lc.binder, lc.cls
+    from .interp import _tree_subst
+    from .expr import cond_subst
+    probe = Cond("key", cond_subst(cond.key(), {k: "§"}), tree=_tree_subst(cond.tree, {k: "§"}))
+    fcls = "{§∈%s | %s}" % (cls, probe.key())
+
+    def at(i, _v=val, _k=k):
+        return subst_val(_v, {_k: i})
+    out = Arr((fcls,), at, name="filter")
+    out.filter_of = (Arr((cls,), at, name="pushed-source"), probe)
+    I.update(var, path, "=", out, env, summarised=True)
+
+
 def _apply_summarised(self, var, path, op, val, lc, gs, env, binders=()):
     if op == "push":
         return _apply_push(self, var, path, val, lc, gs, env)
+    if op == "push-if":
+        return _apply_push_if(self, var, path, val, lc, gs, env)
     if op == "insert":
         cur = self.read_place(var, path, env)
         if not isinstance(cur, SetV) or gs or binders:
